@@ -214,6 +214,11 @@ def run(model: Model, rep: Report) -> None:
     from .c05 import state_copy_instances
 
     state_copy_instances(model, r11, ("PDFGraphicState",))
+    from .c05 import cm_order_rule
+
+    cm_order_rule(model, rep, "C16-R14")
+    colour_ops_guarded_rule(model, rep, "C16-R12")
+    colourspace_resource_rule(model, rep, "C16-R13")
     r6 = rep.rule("C16-R6", "COPYFIELDS", "q saves every piece of graphics state that the state operators write", 3)
     gcs = model.func(INTERP + ".get_current_state")
     ret = [n for n in walk_no_nested(gcs.node) if isinstance(n, ast.Return)]
@@ -331,3 +336,31 @@ def _branch_of(f: FuncInfo, node: ast.AST) -> str:
 
     gts = _guard_tests(f, node)
     return " & ".join((("" if pol else "not ") + unparse(t))[:40] for t, pol in gts[-2:])
+
+
+def colour_ops_guarded_rule(model: Model, rep: Report, rid: str) -> None:
+    """g/G/rg/RG/k/K: an operator whose operands are ill-typed changes nothing - neither the colour nor the colour space."""
+    r = rep.rule(rid, "GUARD", "G g RG rg K k write the colour and the colour space only under the validity test of their operands (an ill-typed operand leaves both as they were)", 12)
+    from ..util import guard_conjuncts
+
+    for op in ("G", "g", "RG", "rg", "K", "k"):
+        f = model.func(f"pdfminer.pdfinterp.PDFPageInterpreter.do_{op}")
+        stores = [n for n in walk_no_nested(f.node) if isinstance(n, ast.Attribute) and isinstance(n.ctx, ast.Store) and unparse(n) in ("self.scs", "self.ncs", "self.graphicstate.scolor", "self.graphicstate.ncolor")]
+        if len(stores) < 2:
+            raise AnchorMissing(f"do_{op}: colour / colour-space stores not found")
+        for st in stores:
+            g = guard_conjuncts(f, st)
+            r.check(any(x.endswith("isnotNone") for x in g), site(f, st), f.qualname, f"`{unparse(st)} = ...` runs under `<operands> is not None`", why=f"conditions {sorted(g)}: the store also happens when the operands could not be read, so a malformed operator switches the colour space that the following sc/scn operands are counted against")
+
+
+def colourspace_resource_rule(model: Model, rep: Report, rid: str) -> None:
+    r = rep.rule(rid, "BIND", "colour-space resources are resolved before they are interpreted: get_colorspace receives resolve1(spec), so an entry given as an indirect reference (to an array or to a name) defines the name like a direct one", 1)
+    f = model.func("pdfminer.pdfinterp.PDFPageInterpreter.init_resources")
+    calls = [c for c in walk_no_nested(f.node) if isinstance(c, ast.Call) and (dotted(c.func) or "") == "get_colorspace"]
+    top = [c for c in calls if not any(c is x for g in model.funcs.values() if g.parent is f for x in ast.walk(g.node))]
+    if not top:
+        raise AnchorMissing("init_resources: call of get_colorspace not found")
+    for c in top:
+        a = c.args[0] if c.args else None
+        ok = isinstance(a, ast.Call) and (dotted(a.func) or "") == "resolve1"
+        r.check(bool(ok), site(f, c), f.qualname, f"`{unparse(c)}` passes a resolved specification", why="the raw dictionary value is passed: for `/CS0 5 0 R` the helper sees a reference, finds no name, and the colour space is never registered - cs/CS on it is ignored and the following sc/scn pops the wrong number of operands")
